@@ -104,6 +104,11 @@ func (h *srvHandler) Handle(ctx context.Context, received packet.Request) (packe
 		}
 	case 3:
 		panic("handler panic requested by the scenario")
+	case 5:
+		// the handler fails with an ordinary error: the client is told so (server failure), the connection lives on
+		return nil, errors.New("the device behind the handler did not answer")
+	case 6:
+		return nil, fmt.Errorf("handler: %w", errors.New("wrapped failure"))
 	}
 	return packet.ReadHoldingRegistersResponseTCP{
 		MBAPHeader: req.MBAPHeader,
@@ -563,6 +568,69 @@ func runSrv(ts []string) string {
 				break
 			}
 			o = c.readReply(id)
+		case "he":
+			// a request whose handler returns an ordinary error: answered with the server-failure exception
+			c := clients[k]
+			if c == nil {
+				o = "nc"
+				break
+			}
+			unit := 5 + id%2
+			if _, err := c.conn.Write(fc3Frame(id, unit)); err != nil {
+				o = "eof"
+				break
+			}
+			{
+				want := []byte{byte(id >> 8), byte(id), 0, 0, 0, 3, byte(unit), 0x83, 4}
+				got := make([]byte, 9)
+				_ = c.conn.SetReadDeadline(time.Now().Add(srvWait))
+				if n, err := io.ReadFull(c.conn, got); err != nil {
+					var ne net.Error
+					if errors.As(err, &ne) && ne.Timeout() {
+						o = "to"
+					} else if n == 0 {
+						o = "eof"
+					} else {
+						o = fmt.Sprintf("cut%x", got[:n])
+					}
+				} else if string(got) == string(want) {
+					o = fmt.Sprintf("r%d", id)
+				} else {
+					o = fmt.Sprintf("bad%x", got)
+				}
+			}
+		case "w":
+			// the client writes its request and shuts down its sending side right behind it (it reads replies until the end
+			// of the stream): the request is answered, then the connection ends
+			c := clients[k]
+			if c == nil {
+				o = "nc"
+				break
+			}
+			if _, err := c.conn.Write(fc3Frame(id, 1)); err != nil {
+				o = "eof"
+				break
+			}
+			if tc, ok := c.conn.(*net.TCPConn); ok {
+				_ = tc.CloseWrite()
+			}
+			o = c.readReply(id)
+			if o == fmt.Sprintf("r%d", id) && !c.waitClosed() {
+				o = "st-open"
+			}
+			_ = c.conn.Close()
+			{
+				wasTracked := tracked[k]
+				tracked[k] = false
+				if wasTracked && (!shutdownStarted || shutdownResult != "") {
+					if !settle() {
+						o += "-stuck"
+					}
+					if !closeCbSettled(k) {
+						o = "nocb"
+					}
+				}
+			}
 		case "m":
 			// a client that sends early: 25 requests (ids id..id+24) in ONE write of exactly 300 bytes - what one read of
 			// the connection loop can take - and then waits for the 25 replies
